@@ -196,7 +196,7 @@ oracle = DESIGN.md Appendix B (transcribed from the rustdoc on the wire fields)"
     let mut rng = Rng::derive(seed, 12, 0);
 
     // ---- layout --------------------------------------------------------------------------------------
-    let n_layout = ctx.tier.pick(3_000, 3_000_000);
+    let n_layout = ctx.tier.pick(30_000, 3_000_000);
     for i in 0..n_layout {
         let mut h = [0u16; 60];
         let mut used = std::collections::HashSet::new();
@@ -396,7 +396,7 @@ oracle = DESIGN.md Appendix B (transcribed from the rustdoc on the wire fields)"
     // ---- the summary of a status message mirrors its accessors (summarize/rda.rs) ------------------------------
     {
         use nexrad_decode::messages::decode_messages;
-        let n = ctx.tier.pick(3_000, 150_000);
+        let n = ctx.tier.pick(20_000, 150_000);
         for i in 0..n {
             let mut h = enc::gen_rda_status_in_domain(&mut rng);
             if i % 3 == 0 {
@@ -477,7 +477,7 @@ oracle = DESIGN.md Appendix B (transcribed from the rustdoc on the wire fields)"
     }
 
     // ---- alarm_messages(): non-zero codes, message order ----------------------------------------------------
-    let n = ctx.tier.pick(5_000, 5_000_000);
+    let n = ctx.tier.pick(50_000, 5_000_000);
     for i in 0..n {
         let mut m = base.clone();
         for a in m.alarm_codes.iter_mut() {
